@@ -83,3 +83,131 @@ Lemma prefixb_refl : forall s, prefixb s s = true.
 Proof. induction s as [|a s IH]; [reflexivity|]. cbn. rewrite Ascii.eqb_refl. exact IH. Qed.
 Lemma index_of_empty : forall s, sindex EmptyString s = 0.
 Proof. intro s; unfold sindex; destruct s; reflexivity. Qed.
+
+(* ------------------------------------------------------------------ declarative characterisations
+   (sspec uses the same byte-string functions as scall; these lemmas say what those functions
+   compute without mentioning how) *)
+Lemma prefixb_iff : forall p s, prefixb p s = true <-> exists r, s = (p ++ r)%string.
+Proof.
+  induction p as [|a p IH]; intros s.
+  - cbn. destruct s; (split; [intros _; eexists; reflexivity | reflexivity]).
+  - destruct s as [|b s]; cbn.
+    + split; [discriminate | intros [r H]; discriminate].
+    + rewrite andb_true_iff, Ascii.eqb_eq, IH. split.
+      * intros [E [r H]]; subst. exists r; reflexivity.
+      * intros [r H]. inversion H; subst. split; [reflexivity | exists r; reflexivity].
+Qed.
+
+Lemma slen_cons : forall a s, slen (String a s) = 1 + slen s.
+Proof. intros. unfold slen. cbn [String.length]. lia. Qed.
+
+Lemma index_from_found : forall sub s i k,
+  index_from sub s i = k -> k <> -1 -> 0 <= i ->
+  exists pre post, s = (pre ++ sub ++ post)%string /\ k = i + slen pre /\
+    (forall pre' post', s = (pre' ++ sub ++ post')%string -> slen pre <= slen pre').
+Proof.
+  intros sub s; induction s as [|a s IH]; intros i k H Hk Hi; cbn [index_from] in H.
+  - destruct (prefixb sub EmptyString) eqn:P; [|congruence].
+    apply prefixb_iff in P. destruct P as [r P]. exists EmptyString, r. repeat split.
+    + exact P.
+    + cbn. lia.
+    + intros. apply slen_nonneg.
+  - destruct (prefixb sub (String a s)) eqn:P.
+    + apply prefixb_iff in P. destruct P as [r P]. exists EmptyString, r. repeat split.
+      * exact P.
+      * cbn. lia.
+      * intros. apply slen_nonneg.
+    + destruct (IH (i + 1) k H Hk ltac:(lia)) as [pre [post [E [K L]]]].
+      exists (String a pre), post. repeat split.
+      * cbn. rewrite E. reflexivity.
+      * rewrite slen_cons. lia.
+      * intros pre' post' E'. destruct pre' as [|b pre'].
+        -- exfalso. cbn in E'. assert (prefixb sub (String a s) = true) by (apply prefixb_iff; exists post'; exact E'). congruence.
+        -- cbn in E'. inversion E'; subst b. rewrite !slen_cons. specialize (L pre' post' H2). lia.
+Qed.
+Lemma index_from_ge : forall sub s i, 0 <= i -> index_from sub s i = -1 \/ i <= index_from sub s i.
+Proof.
+  intros sub s; induction s as [|a s IH]; intros i Hi; cbn [index_from].
+  - destruct (prefixb sub EmptyString); [right; lia | left; reflexivity].
+  - destruct (prefixb sub (String a s)); [right; lia|]. destruct (IH (i + 1) ltac:(lia)); [left; assumption | right; lia].
+Qed.
+Lemma index_from_absent : forall sub s i, 0 <= i -> index_from sub s i = -1 ->
+  forall pre post, s <> (pre ++ sub ++ post)%string.
+Proof.
+  intros sub s; induction s as [|a s IH]; intros i Hi H pre post E; cbn [index_from] in H.
+  - destruct (prefixb sub EmptyString) eqn:P; [lia|].
+    destruct pre; [|discriminate]. cbn in E.
+    assert (prefixb sub EmptyString = true) by (apply prefixb_iff; exists post; exact E). congruence.
+  - destruct (prefixb sub (String a s)) eqn:P; [lia|].
+    destruct pre as [|b pre].
+    + cbn in E. assert (prefixb sub (String a s) = true) by (apply prefixb_iff; exists post; exact E). congruence.
+    + cbn in E. inversion E; subst. exact (IH (i + 1) ltac:(lia) H pre post eq_refl).
+Qed.
+
+(* indexOf: the byte offset of the LEFTMOST occurrence, -1 exactly when there is none *)
+Lemma sindex_leftmost_l : forall sub s,
+  (sindex sub s = -1 /\ forall pre post, s <> (pre ++ sub ++ post)%string) \/
+  (exists pre post, s = (pre ++ sub ++ post)%string /\ sindex sub s = slen pre /\
+     forall pre' post', s = (pre' ++ sub ++ post')%string -> slen pre <= slen pre').
+Proof.
+  intros sub s. unfold sindex. destruct (Z.eq_dec (index_from sub s 0) (-1)) as [E|N].
+  - left. split; [exact E|]. apply (index_from_absent sub s 0); [lia | exact E].
+  - right. destruct (index_from_found sub s 0 _ eq_refl N ltac:(lia)) as [pre [post [A [B C]]]].
+    exists pre, post. repeat split; [exact A | lia | exact C].
+Qed.
+
+Lemma sdrop_app : forall r p, sdrop (String.length r) (r ++ p)%string = p.
+Proof. induction r; intros; cbn; auto. Qed.
+Lemma length_app : forall a b, String.length (a ++ b)%string = (String.length a + String.length b)%nat.
+Proof. induction a; intros; cbn; auto. Qed.
+Lemma stake_sdrop : forall n s, (stake n s ++ sdrop n s)%string = s.
+Proof. induction n; intros [|a s]; cbn; auto. rewrite IHn. reflexivity. Qed.
+Lemma suffixb_iff : forall p s, suffixb p s = true <-> exists r, s = (r ++ p)%string.
+Proof.
+  intros p s. unfold suffixb. rewrite andb_true_iff, Nat.leb_le, String.eqb_eq. split.
+  - intros [L E]. exists (stake (String.length s - String.length p) s).
+    pose proof (stake_sdrop (String.length s - String.length p) s) as K. rewrite E in K. symmetry. exact K.
+  - intros [r E]. subst s. rewrite length_app. split; [lia|].
+    replace (String.length r + String.length p - String.length p)%nat with (String.length r) by lia.
+    apply sdrop_app.
+Qed.
+
+(* split on a non-empty separator loses nothing: joining the pieces with the separator gives the
+   receiver back (only this inverse is stated; that no piece contains the separator is not) *)
+Definition sjoin_tail (sep : string) (r : list string) : string :=
+  fold_right (fun y acc => (sep ++ y ++ acc)%string) EmptyString r.
+Definition sjoin (sep : string) (l : list string) : string :=
+  match l with [] => EmptyString | x :: r => (x ++ sjoin_tail sep r)%string end.
+Lemma sapp_assoc : forall a b c : string, ((a ++ b) ++ c = a ++ (b ++ c))%string.
+Proof. induction a; intros; cbn; [reflexivity | rewrite IHa; reflexivity]. Qed.
+Lemma sapp_nil_r : forall a : string, (a ++ EmptyString)%string = a.
+Proof. induction a; cbn; [reflexivity | rewrite IHa; reflexivity]. Qed.
+Lemma split_fuel_nonempty : forall fuel sep cur s, split_fuel fuel sep cur s <> [].
+Proof.
+  induction fuel as [|f IH]; intros sep cur s; cbn [split_fuel]; [discriminate|].
+  destruct s as [|a s']; [discriminate|]. destruct (prefixb sep (String a s')); [discriminate | apply IH].
+Qed.
+Lemma split_fuel_join : forall fuel sep cur s,
+  sep <> EmptyString -> (String.length s < fuel)%nat ->
+  sjoin sep (split_fuel fuel sep cur s) = (cur ++ s)%string.
+Proof.
+  induction fuel as [|f IH]; intros sep cur s Hs Hf; [lia|].
+  cbn [split_fuel]. destruct s as [|a s'].
+  - cbn. rewrite !sapp_nil_r. reflexivity.
+  - destruct (prefixb sep (String a s')) eqn:P.
+    + apply prefixb_iff in P. destruct P as [r P]. rewrite P, sdrop_app.
+      assert (L : (String.length r < f)%nat).
+      { assert (String.length (String a s') = String.length (sep ++ r)%string) by (rewrite P; reflexivity).
+        rewrite length_app in H. destruct sep; [congruence|]. cbn [String.length] in *. lia. }
+      specialize (IH sep EmptyString r Hs L). cbn [sjoin].
+      destruct (split_fuel f sep EmptyString r) as [|x t] eqn:S.
+      * exfalso. exact (split_fuel_nonempty _ _ _ _ S).
+      * cbn [sjoin] in IH. cbn [sjoin_tail fold_right]. fold (sjoin_tail sep t). rewrite IH. reflexivity.
+    + cbn [String.length] in Hf. rewrite (IH sep (cur ++ String a EmptyString)%string s' Hs ltac:(lia)).
+      rewrite sapp_assoc. reflexivity.
+Qed.
+Lemma split_join_l : forall sep s, sep <> EmptyString -> sjoin sep (split_by sep s) = s.
+Proof.
+  intros sep s H. unfold split_by. destruct sep; [congruence|].
+  rewrite split_fuel_join; [reflexivity | discriminate | lia].
+Qed.
